@@ -233,6 +233,7 @@ func cmdReplay(args []string) {
 	rot := 0
 	drift := 0
 	harmless := 0
+	knownDrift := 0
 	for i := range vecs {
 		c := &vecs[i]
 		if c.Back == nil || c.Jdec == nil || len(c.Texts) == 0 {
@@ -289,12 +290,19 @@ func cmdReplay(args []string) {
 			}
 			continue
 		}
-		// the property fails on this case: is it exactly what the listed deviations predict?
+		// the property fails on this case: is the outcome exactly what the listed deviations predict?
+		// (the judged aspects are the read-back value and the decoded JSON; whether the text is also
+		// byte for byte the text of the deviating model is counted separately)
 		known := ""
+		exact := false
 		for _, o := range c.OutsK {
-			if same(o.Text, r.Text) && o.Back.Canon(t) == r.Back.Canon(t) && o.Jdec.Canon(t) == r.Jdec.Canon(t) {
+			if o.Back.Canon(t) == r.Back.Canon(t) && o.Jdec.Canon(t) == r.Jdec.Canon(t) {
 				known = strings.Join(c.KDevs, "+")
+				exact = exact || same(o.Text, r.Text)
 			}
+		}
+		if known != "" && !exact {
+			knownDrift++
 		}
 		aspect, what := "", ""
 		switch {
@@ -311,6 +319,7 @@ func cmdReplay(args []string) {
 		rep.Mismatch(vh.Mismatch{Case: caseInfo(t, c, r, aspect), What: what, Known: known})
 	}
 	rep.Extra["text_drift"] = drift
+	rep.Extra["known_outcome_but_other_text"] = knownDrift
 	rep.Extra["deviation_changes_text_only"] = harmless
 	rep.Emit()
 }
